@@ -194,11 +194,24 @@ def run(chk: Check) -> None:
         D.add("recv.norm", [hx(v)], "ok\t" + esc(_normalise(_str(v))))
 
     async def serial_part() -> None:
-        rig = rt.PortRig()
-        await rig.start()
+        rig_ro = rt.PortRig()
+        await rig_ro.start()
+        # a second port, opened the way a sending gateway opens it (signature written, first echo answered by the rig)
+        rig_tx = rt.PortRig(sending=True)
+        try:
+            await rig_tx.start()
+        except Exception as e:  # noqa: BLE001
+            chk.violation(f"serial.open_sending:{type(e).__name__}", f"opening a serial port with sending enabled raised {e!r}", {"op": "serial.open"})
+            rig_tx = None
+        chk.extra["signature_frame"] = getattr(rig_tx, "signature", None)
         n_streams = 40 if not thorough else 600
         for si in range(n_streams):
+            rig = rig_tx if (rig_tx is not None and rig_tx.signature and si % 3 == 2) else rig_ro
             lines = []
+            if rig is rig_tx:
+                # the stick echoes the further copies of the signature it was sent before the first echo got through
+                for _ in range(rnd.randint(1, 3)):
+                    lines.append(f"000 {rig.signature}".encode())
             # every fourth stream is about the one piece of state the serial receive path keeps across lines: the sync
             # cycles it tracks from I|1F09 (whole, truncated to 1-2 bytes, zero countdown; three controllers)
             sync_biased = si % 4 == 3
@@ -255,7 +268,9 @@ def run(chk: Check) -> None:
                 chk.violation("serial.independence", f"stream delivered {ref_s}, its lines one by one {alone}",
                               {"op": "serial", "stream": stream.hex()})
         chk.extra["serial_streams"] = n_streams
-        rig.stop()
+        rig_ro.stop()
+        if rig_tx is not None:
+            rig_tx.stop()
 
     asyncio.run(serial_part())
 
